@@ -4,7 +4,10 @@ use std::{
     marker::PhantomData,
 };
 
+#[cfg(not(feature = "verif"))]
 use parking_lot::RwLockReadGuard;
+#[cfg(feature = "verif")]
+use rawdb::verif::RwLockReadGuard;
 use rawdb::{Region, RegionMetadata};
 
 use crate::{AnyStoredVec, BUFFER_SIZE, HEADER_OFFSET, VecIndex, VecValue, likely};
@@ -99,6 +102,8 @@ where
     #[inline(always)]
     fn refill_buffer(&mut self) {
         let buffer_len = self.remaining_file_bytes().min(Self::NORMAL_BUFFER_SIZE);
+        #[cfg(feature = "verif")]
+        crate::verif::file_read(self.file_offset, buffer_len, "RawIoSource::refill_buffer");
         self.file
             .read_exact(&mut self.buffer[..buffer_len])
             .expect("Failed to read file buffer");
